@@ -46,6 +46,9 @@ RULE = (
     "space mixing random and deterministic variables; distinct = structural hash of the drawn case."
 )
 ASSUMPTIONS = [
+    "selection criteria as documented in the module docstring of parametric_statistics ('first': the first distribution for which "
+    "the criterion is greater than the level; 'best': the distribution optimising it), asserted with the Kolmogorov test only on "
+    "decided cases (recomputed p-value below level/20 = rejected, above 0.5 = accepted) over mid-point quantile samples",
     "reference cdfs use math.erfc/expm1/log and, for Beta and Gamma only, scipy.special.betainc/gammainc "
     "(special functions, not the distribution wrappers under test); moments use math.gamma and closed forms",
     "tolerances: moments 1e-9 relative to the standard deviation (1e-6 for OpenTURNS truncated laws, 1e-4 for transformed "
@@ -380,8 +383,13 @@ def space_cases(draw):
     n_points = draw(st.integers(1, 3))
     edits = []
     for k in range(draw(st.integers(0, 3))):
-        op = draw(st.sampled_from(["remove", "filter", "filter_copy", "add", "add_det", "rename", "rename", "rebuild"]))
+        op = draw(st.sampled_from(["remove", "filter", "filter_copy", "add", "add_det", "rename", "rename", "rebuild", "rejected", "rejected"]))
         edit = {"op": op, "var": draw(st.integers(0, 5))}
+        if op == "rejected":
+            # an operation the API documents as rejected: the space must be left as it was
+            family = draw(st.sampled_from(SPACE_FAMILIES))
+            edit["why"] = draw(st.sampled_from(["existing_name", "existing_name", "unknown_distribution", "mixed_library", "inconsistent_sizes"]))
+            edit["family"], edit["q"] = family, draw(law_params(family))
         if op in ("filter", "filter_copy"):
             edit["keep"] = draw(st.lists(st.booleans(), min_size=4, max_size=4))
         elif op == "add":
@@ -397,9 +405,19 @@ def space_cases(draw):
             edits.append({"op": "rebuild", "var": 0})  # renaming alone never rebuilds the joint distribution
     copula = draw(st.sampled_from([None, None, {"kind": "normal", "rho": 0.9}, {"kind": "normal", "rho": -0.8}, {"kind": "normal", "rho": 0.7},
                                    {"kind": "clayton", "theta": 5.0}, {"kind": "clayton", "theta": 2.0}]))
+    copula_first = draw(st.booleans())
+    lib = draw(st.sampled_from(["SP", "OT"]))
+    if copula is not None:
+        lib = draw(st.sampled_from(["OT", "OT", "SP"]))  # only OpenTURNS joint laws take a copula
+        if copula_first and draw(st.booleans()):
+            # an edit that must keep the dependence: renaming a random variable / adding a deterministic one
+            randoms = [i for i, v in enumerate(variables) if v["kind"] == "random"]
+            keep = draw(st.sampled_from([{"op": "rename", "var": randoms[0]}, {"op": "rename", "var": randoms[-1]},
+                                         {"op": "add_det", "var": 0, "new": {"kind": "det", "name": "w_det", "size": 1, "lb": [0.0], "w": [1.0]}, "u_new": [0.5]}]))
+            edits.insert(0, keep)
     return {
-        "lib": draw(st.sampled_from(["SP", "OT"])), "variables": variables, "edits": edits,
-        "copula": copula, "n_copula": draw(st.integers(400, 600)),
+        "lib": lib, "variables": variables, "edits": edits,
+        "copula": copula, "n_copula": draw(st.integers(400, 600)), "copula_first": copula_first,
         "u": [[draw(PROBS) for _ in range(d)] for _ in range(n_points)],
         "n": draw(st.integers(50, 400)), "prob": draw(st.sampled_from([0.5, 0.1, 0.25, 0.9, 0.05, 0.99])),
         "rng": draw(st.integers(0, 2**31 - 2)),
@@ -806,6 +824,33 @@ def apply_edit(p, space, variables, laws, U, edit):
     return None
 
 
+def apply_rejected(p, ctx, space, variables, edit) -> str:
+    """Run an operation that must be rejected; the reference is left unchanged."""
+    lib, why = p["lib"], edit["why"]
+    cls = f"{lib}{edit['family']}Distribution"
+    kwargs = class_kwargs(edit["family"], edit["q"])
+    target = variables[edit["var"] % len(variables)]["name"]
+    expected = ValueError
+    try:
+        if why == "existing_name":
+            label = f"rejected add_random_variable({target}) (existing name)"
+            space.add_random_variable(target, cls, **kwargs)
+        elif why == "unknown_distribution":
+            label, expected = "rejected add_random_variable with an unknown distribution class", (ImportError, ValueError)
+            space.add_random_variable("w_rejected", f"{lib}NoSuchLawDistribution")
+        elif why == "mixed_library":
+            label = "rejected add_random_variable mixing the SciPy and OpenTURNS families"
+            space.add_random_variable("w_rejected", f"{'OT' if lib == 'SP' else 'SP'}{edit['family']}Distribution", **kwargs)
+        else:
+            label = "rejected add_random_vector with parameter collections of inconsistent lengths"
+            first = next(iter(kwargs))
+            space.add_random_vector("w_rejected", cls, **{k: [v] * (3 if k == first else 2) for k, v in kwargs.items()})
+    except expected:
+        ctx.cls(f"rejected:{why}")
+        return label
+    ctx.fail("space:rejection", f"{label}: no documented error was raised")
+
+
 def kendall_tau(x: np.ndarray, y: np.ndarray) -> float:
     dx = np.sign(x[:, None] - x[None, :])
     dy = np.sign(y[:, None] - y[None, :])
@@ -813,38 +858,47 @@ def kendall_tau(x: np.ndarray, y: np.ndarray) -> float:
     return float((dx * dy).sum() / (n * (n - 1)))
 
 
-def check_copula(p, ctx, space, variables, laws):
-    """A dependent copula changes the dependence of the samples, not their marginal laws."""
+def set_copula(p, ctx, space, variables, laws):
+    """build_joint_distribution(copula) on the current space; returns {"tau", "kind"} or None when not applicable."""
     import openturns
 
-    random_laws = [law for v, group in zip(variables, laws) if v["kind"] == "random" for law in group]
-    d = len(random_laws)
+    d = sum(len(group) for v, group in zip(variables, laws) if v["kind"] == "random")
     spec = p.get("copula")
     if spec is None or p["lib"] != "OT" or d < 2:
-        return
+        return None
     if spec["kind"] == "clayton" and d == 2:
-        copula, tau = openturns.ClaytonCopula(spec["theta"]), spec["theta"] / (spec["theta"] + 2.0)
+        copula, tau, kind = openturns.ClaytonCopula(spec["theta"]), spec["theta"] / (spec["theta"] + 2.0), "clayton"
     else:
         rho = spec.get("rho", 0.9)
         matrix = openturns.CorrelationMatrix(d)
         matrix[0, 1] = rho
-        copula, tau = openturns.NormalCopula(matrix), 2.0 / math.pi * math.asin(rho)
+        copula, tau, kind = openturns.NormalCopula(matrix), 2.0 / math.pi * math.asin(rho), "normal"
     space.build_joint_distribution(copula)
+    ctx.cls(f"copula:{kind}")
+    return {"tau": tau, "kind": kind}
+
+
+def check_dependence(p, ctx, space, variables, laws, state, where: str):
+    """Marginals unchanged and Kendall's tau of the first two random components as the reference copula says."""
+    random_laws = [law for v, group in zip(variables, laws) if v["kind"] == "random" for law in group]
+    d = len(random_laws)
+    if d < 2:
+        return
     n = p["n_copula"]
     samples = np.asarray(space.compute_samples(n), dtype=float)
-    ctx.check(samples.shape == (n, d), "space:copula", f"with a copula compute_samples({n}) has shape {samples.shape}, expected {(n, d)}")
+    ctx.check(samples.shape == (n, d), "space:copula", f"{where}: compute_samples({n}) has shape {samples.shape}, expected {(n, d)}")
     for c, law in enumerate(random_laws):
         col = samples[:, c]
-        ctx.check(bool(np.all((col >= law.lo) & (col <= law.hi))), "space:copula", f"with a copula, column {c}: sample outside the support [{law.lo}, {law.hi}]")
+        ctx.check(bool(np.all((col >= law.lo) & (col <= law.hi))), "space:copula", f"{where}: column {c}: sample outside the support [{law.lo}, {law.hi}]")
         dn = kolmogorov(col, law)
-        ctx.check(dn < 4.0 / math.sqrt(n), "space:copula", f"with a copula, column {c} ({law.family} {law.q}) no longer follows its marginal law: Kolmogorov distance {dn:.4f}")
+        ctx.check(dn < 4.0 / math.sqrt(n), "space:copula", f"{where}: column {c} ({law.family} {law.q}) no longer follows its marginal law: Kolmogorov distance {dn:.4f}")
     # Kendall's tau is a U-statistic with a kernel in [-1, 1]: Hoeffding gives P(|tau_n - tau| >= t) <= 2 exp(-floor(n/2) t^2 / 2),
     # below 1e-9 for t = sqrt(2 ln(2e9) / floor(n/2)), whatever the marginal laws
     band = math.sqrt(2.0 * math.log(2e9) / (n // 2))
     got = kendall_tau(samples[:, 0], samples[:, 1])
-    _track(ctx, "max_kendall_error_over_band", abs(got - tau) / band)
-    ctx.check(abs(got - tau) <= band, "space:copula", f"Kendall's tau of the first two random components is {got:.3f}; the {spec['kind']} copula has {tau:.3f} (band {band:.3f}, {n} samples)")
-    ctx.cls(f"copula:{spec['kind'] if spec['kind'] == 'clayton' and d == 2 else 'normal'}")
+    _track(ctx, "max_kendall_error_over_band", abs(got - state["tau"]) / band)
+    ctx.check(abs(got - state["tau"]) <= band, "space:copula",
+              f"{where}: Kendall's tau of the first two random components is {got:.3f}; the reference ({state['kind']}) has {state['tau']:.3f} (band {band:.3f}, {n} samples)")
 
 
 def case_space(p, ctx):
@@ -861,28 +915,48 @@ def case_space(p, ctx):
     # ---- a drawn history of edits; after each one the same oracles against the edited reference
     edits = p.get("edits") or ([p["edit"]] if p.get("edit", {}).get("op", "none") != "none" else [])
     label, renamed_before = "", False
+    # the copula is set either before the edits (it must survive those that do not rebuild the joint law) or after them
+    dependence = set_copula(p, ctx, space, variables, laws) if p.get("copula_first") else None
+    if dependence:
+        check_dependence(p, ctx, space, variables, laws, dependence, "with a copula")
     for edit in edits:
-        edited = apply_edit(p, space, variables, laws, U, edit)
-        if edited is None:
-            continue
-        n_random_before = sum(v["kind"] == "random" for v in variables)
         randoms = [v["name"] for v in variables if v["kind"] == "random"]
+        n_random_before = len(randoms)
         target = variables[edit["var"] % len(variables)]["name"]
-        space, variables, laws, U, step = edited
+        if edit["op"] == "rejected":
+            step, rebuilt = apply_rejected(p, ctx, space, variables, edit), False
+        else:
+            edited = apply_edit(p, space, variables, laws, U, edit)
+            if edited is None:
+                continue
+            space, variables, laws, U, step = edited
+            now = [v["name"] for v in variables if v["kind"] == "random"]
+            # adding or removing a random variable and build_joint_distribution() rebuild the joint law with the independent copula;
+            # renaming, deterministic variables and rejected operations do not touch it
+            rebuilt = edit["op"] == "rebuild" or (edit["op"] != "rename" and now != randoms)
         label = (label + "; " if label else "after ") + step
         if check_space_state(p, ctx, space, variables, laws, U, 50, label) is None:
             return
         ctx.cls(f"edit:{edit['op']}")
         n_random = sum(v["kind"] == "random" for v in variables)
+        if dependence:
+            if rebuilt and dependence["kind"] != "independent":
+                dependence = {"tau": 0.0, "kind": "independent"}
+            elif not rebuilt and dependence["kind"] != "independent":
+                ctx.cls(f"copula_kept_through:{edit['op']}")
+            check_dependence(p, ctx, space, variables, laws, dependence, label)
         if n_random < n_random_before and n_random:
             ctx.cls("edit_removes_a_random_variable_among_several")
         if renamed_before and edit["op"] in ("add", "remove", "filter", "filter_copy", "rebuild") and n_random >= 2:
             ctx.cls("joint_rebuilt_after_renaming_a_random_variable")
         if edit["op"] == "rename" and target in randoms[:-1]:
             renamed_before = True  # the renamed random variable keeps its rank but its dictionary entry moves last
-    if renamed_before and p.get("copula") and p["lib"] == "OT" and sum(v["kind"] == "random" for v in variables) >= 2:
-        ctx.cls("joint_rebuilt_after_renaming_a_random_variable")
-    check_copula(p, ctx, space, variables, laws)
+    if not p.get("copula_first"):
+        if renamed_before and p.get("copula") and p["lib"] == "OT" and sum(v["kind"] == "random" for v in variables) >= 2:
+            ctx.cls("joint_rebuilt_after_renaming_a_random_variable")
+        dependence = set_copula(p, ctx, space, variables, laws)
+        if dependence:
+            check_dependence(p, ctx, space, variables, laws, dependence, (label or "initial space") + "; with a copula")
     d = sum(len(g) for g in laws)
     kinds = {v["kind"] for v in p["variables"]}
     ctx.cls(f"space:{p['lib']}", f"space_dim:{d}")
@@ -1107,7 +1181,100 @@ def case_parametric(p, ctx):
     ctx.sample({"oracle": "parametric", "case": p})
 
 
-ORACLES = {"law": case_law, "cross": case_cross, "space": case_space, "parametric": case_parametric}
+# --------------------------------------------------------------------------- oracle: selection of the fitted law
+GRID_FAMILIES = ["Normal", "Uniform", "Exponential", "Logistic", "Gumbel"]
+
+
+@st.composite
+def selection_cases(draw):
+    size = draw(st.integers(1, 2))
+    pick = lambda options: options[draw(st.integers(0, 2**16)) % len(options)]  # noqa: E731  (evenly, see C14)
+    gen = pick(GRID_FAMILIES)
+    comps = [{"gen": gen if (i == 0 or draw(st.booleans())) else pick(GRID_FAMILIES), "loc": draw(LOC), "scale": draw(SCALE)} for i in range(size)]
+    if draw(st.integers(0, 2)) > 0:
+        # clearly unsuitable families listed before the generating one (the oracle recomputes every verdict itself)
+        wrong = {"Normal": ["Uniform", "Exponential"], "Uniform": ["Exponential", "Gumbel"], "Exponential": ["Normal", "Uniform", "Logistic", "Gumbel"],
+                 "Logistic": ["Uniform", "Exponential"], "Gumbel": ["Uniform", "Exponential"]}[gen]
+        first = pick(wrong)
+        candidates = [first, gen] if draw(st.booleans()) else [first, pick([w for w in wrong if w != first]), gen]
+    else:
+        candidates = draw(st.permutations(GRID_FAMILIES))[: draw(st.integers(2, 3))]
+    return {
+        "components": comps, "candidates": candidates, "selection": draw(st.sampled_from(["first", "first", "best"])),
+        "n": draw(st.integers(200, 400)), "rng": draw(st.integers(0, 2**31 - 2)),
+    }
+
+
+def grid_sample(gen: str, loc: float, scale: float, n: int) -> np.ndarray:
+    """The n mid-point quantiles of the generating law: a sample that its own family fits almost perfectly."""
+    from scipy.special import ndtri
+
+    prob = (np.arange(n) + 0.5) / n
+    z = {"Normal": lambda: ndtri(prob), "Uniform": lambda: prob, "Exponential": lambda: -np.log1p(-prob),
+         "Logistic": lambda: np.log(prob / (1 - prob)), "Gumbel": lambda: -np.log(-np.log(prob))}[gen]()
+    return loc + scale * z
+
+
+def kolmogorov_p_value(dn: float, n: int) -> float:
+    """Asymptotic Kolmogorov p-value with Stephens' finite-n correction (used with wide margins only)."""
+    lam = (math.sqrt(n) + 0.12 + 0.11 / math.sqrt(n)) * dn
+    if lam < 0.2:
+        return 1.0
+    return max(0.0, min(1.0, 2.0 * sum((-1) ** (k - 1) * math.exp(-2.0 * k * k * lam * lam) for k in range(1, 101))))
+
+
+def case_selection(p, ctx):
+    """Documented selection criteria of ParametricStatistics with a significance test (Kolmogorov, level 0.05).
+
+    'first' = the first candidate whose p-value is above the level; 'best' = the candidate optimising the criterion.
+    Only decided cases are asserted: a candidate counts as rejected when the p-value recomputed here is below level/20
+    and as accepted when it is above 0.5 (ten times the level).
+    """
+    from gemseo.datasets.dataset import Dataset
+    from gemseo.uncertainty.statistics.parametric_statistics import ParametricStatistics
+
+    reseed(p["rng"])
+    n, level = p["n"], 0.05
+    data = np.column_stack([grid_sample(c["gen"], c["loc"], c["scale"], n) for c in p["components"]])
+    size = data.shape[1]
+    dataset = Dataset.from_array(data, variable_names=["y"], variable_names_to_n_components={"y": size})
+    # harness p-value of every candidate for every component, from its own fit (a single-candidate object) and the reference cdf
+    verdict = {}
+    for cand in p["candidates"]:
+        entry = ParametricStatistics(dataset, [cand]).distributions["y"]
+        entries = entry if isinstance(entry, list) else [entry]
+        for i, e in enumerate(entries):
+            law = fitted_law(e.name, e.value.distribution.getParameter())
+            pv = kolmogorov_p_value(kolmogorov(data[:, i], law), n)
+            verdict[cand, i] = "rejected" if pv < level / 20 else "accepted" if pv > 0.5 else "undecided"
+    stats = ParametricStatistics(dataset, list(p["candidates"]), fitting_criterion="Kolmogorov", level=level, selection_criterion=p["selection"])
+    entry = stats.distributions["y"]
+    selected = [e.name for e in (entry if isinstance(entry, list) else [entry])]
+    ctx.check(len(selected) == size, "selection:layout", f"{len(selected)} selected laws for {size} components")
+    for i, name in enumerate(selected):
+        ctx.check(name in p["candidates"], "selection:layout", f"selected {name}, not a candidate {p['candidates']}")
+        verdicts = [verdict[c, i] for c in p["candidates"]]
+        summary = dict(zip(p["candidates"], verdicts))
+        if "accepted" in verdicts:
+            ctx.check(verdict[name, i] != "rejected", "selection:accepted", f"component {i} ({p['components'][i]['gen']} sample): {name} selected by '{p['selection']}' although it is rejected at level {level}: {summary}")
+        if p["selection"] == "first":
+            expected = None
+            for cand, v in zip(p["candidates"], verdicts):
+                if v == "accepted":
+                    expected = cand
+                if v != "rejected":
+                    break
+            if expected is not None:
+                ctx.cls("selection_first_decided" + ("_after_a_rejected_candidate" if p["candidates"].index(expected) > 0 else ""))
+                ctx.check(name == expected, "selection:first", f"component {i} ({p['components'][i]['gen']} sample): 'first' selected {name}, the first candidate above the level is {expected}: {summary}")
+        elif verdicts.count("accepted") == 1 and verdicts.count("rejected") == len(verdicts) - 1:
+            ctx.cls("selection_best_decided")
+            ctx.check(verdict[name, i] == "accepted", "selection:best", f"component {i}: 'best' selected {name}: {summary}")
+    ctx.nontriv(("selection", p))
+    ctx.sample({"oracle": "selection", "case": p})
+
+
+ORACLES = {"law": case_law, "cross": case_cross, "space": case_space, "parametric": case_parametric, "selection": case_selection}
 
 
 def run(ctx):
@@ -1115,3 +1282,4 @@ def run(ctx):
     ctx.drive("cross", cross_cases(), case_cross, quick=700, thorough=2000)
     ctx.drive("space", space_cases(), case_space, quick=500, thorough=1500)
     ctx.drive("parametric", parametric_cases(), case_parametric, quick=300, thorough=1200)
+    ctx.drive("selection", selection_cases(), case_selection, quick=120, thorough=500)
